@@ -56,6 +56,24 @@ def build(t, share: bool = False, _memo=None):
     return e
 
 
+def build_over(t, kids):
+    """The node of term t constructed over already built child objects (sub-expression reuse)."""
+    tag = t[0]
+    if tag in M.NARY:
+        return _CLS[tag](*kids)
+    if tag in M.BINARY:
+        return _CLS[tag](kids[0], kids[1])
+    if tag in M.UNARY_PLAIN:
+        return _CLS[tag](kids[0])
+    if tag in M.UNARY_N:
+        return _CLS[tag](kids[0], n=t[2])
+    if tag in M.UNARY_BASE:
+        if t[2] == M.DEFAULT_BASE:
+            return _CLS[tag](kids[0])
+        return _CLS[tag](kids[0], base=t[2])
+    return build(t)
+
+
 def _spelling_key(t):
     """Like the term itself but distinguishing 2 from 2.0 (tuples compare 2 == 2.0)."""
     tag = t[0]
